@@ -1,5 +1,6 @@
 #!/bin/bash
 # Re-run the check of every seeded change against the current machinery: each must be reported as a VIOLATION (exit 1).
+# Optional argument: an extended regular expression selecting seed ids (e.g. 'C10|C03').
 # Uses /repo's working tree (apply, check, undo) - do not run anything else against /repo meanwhile.
 cd /verif || exit 2
 if ! git -C /repo diff --quiet; then echo "/repo has uncommitted changes - refusing"; exit 2; fi
@@ -7,6 +8,7 @@ out=out/seed_regress.log; : > $out
 rc=0
 for d in seeded/C*/; do
   id=$(basename $d)
+  if [ -n "$1" ] && ! echo "$id" | grep -Eq "$1"; then continue; fi
   prop=$(python3 -c "import json,sys; print(json.load(open('$d/meta.json'))['breaks_property'])")
   if ! git -C /repo apply --check /verif/$d/patch.diff 2>/dev/null; then echo "$id $prop PATCH-DOES-NOT-APPLY" | tee -a $out; continue; fi
   git -C /repo apply /verif/$d/patch.diff
